@@ -238,15 +238,16 @@ def rule_termination(ctx, mmod):
             bad.append((n, [(p.kind, p.value) for p in ps], want))
     ctx.check(not bad, R, "integers", fi.where(), "valid_beat_duration(n) for integers",
               "valid beat units must be exactly 1, 2, 4, 8, ...: %s" % bad[:4])
-    for label, x in (("2.5", 2.5), ("0.5", 0.5), ("-0.25", -0.25), ("3.0", 3.0), ("6.5", 6.5)):
+    for label, x in (("2.5", 2.5), ("0.5", 0.5), ("-0.25", -0.25), ("3.0", 3.0), ("6.5", 6.5), ("inf", float("inf")), ("-inf", float("-inf")),
+                     ("nan", float("nan")), ("1e300", 1e300), ("5e-324", 5e-324)):
         def mk(ch):
-            return Interp(ctx.repo, ch, max_iter=200)
+            return Interp(ctx.repo, ch, max_iter=3000)
         try:
             ps = explore(mk, lambda it: it.call_function(fi, [x], {}))
             ok = len(ps) == 1 and ps[0].kind == "return" and ps[0].value is False
             why = "%s gives %s" % (label, [(p.kind, p.value) for p in ps])
         except CannotDecide as e:
-            ok, why = False, "does not terminate on %s (%s)" % (label, e)
+            ok, why = False, "does not terminate on %s (%s)" % (label, short(str(e), 160))
         ctx.check(ok, R, "fraction[%s]" % label, fi.where(), "valid_beat_duration(%s)" % label, why)
 
 
